@@ -169,6 +169,10 @@ def run_job(job, scratch):
 def main():
     jobs = json.load(sys.stdin)
     real_stdout = os.fdopen(os.dup(1), 'w')
+    # whatever scripted tests write to fd 1 / fd 2 directly must not end up
+    # in the result channel
+    devnull = os.open(os.devnull, os.O_WRONLY)
+    os.dup2(devnull, 1)
     results = []
     with tempfile.TemporaryDirectory(prefix='verif-inproc-') as scratch:
         for job in jobs:
